@@ -690,3 +690,86 @@ def eval_over_count(fl, d, n, is_count, depth=0):
     if k == "cast" and len(d) > 1:
         return eval_over_count(fl, d[1], n, is_count, depth + 1)
     return None
+
+
+# ------------------------------------------------------------------ formulas: expression identity on a grid
+
+
+def eval_expr(fl, d, leaf, depth=0):
+    """numeric value of a description tree under an assignment of its leaves: `leaf(desc)` returns a number for the
+    places / calls it knows and None otherwise.  Arithmetic (+ - * /), casts (transparent in descriptions), integer and
+    float literals, and named locals (replaced by their definitions).  None if anything else occurs.
+    Used to compare the expression a function computes with the expression the definition gives, at a grid of
+    points (two polynomials / rational functions of low degree that agree on enough points are the same): the tree is
+    evaluated, graphrs is not run."""
+    import panic
+    import re
+
+    if depth > 14 or not isinstance(d, tuple):
+        return None
+    v = leaf(d)
+    if v is not None:
+        return v
+    k = d[0]
+    if k == "const":
+        m = re.match(r"const (-?\d+)_[iu](?:8|16|32|64|128|size)$", d[1])
+        if m:
+            return float(m.group(1))
+        m = re.match(r"const (-?\d+(?:\.\d+)?(?:[eE]-?\d+)?)_?f(?:32|64)$", d[1])
+        if m:
+            return float(m.group(1))
+        return None
+    if k in ("place", "tmp") and (k == "tmp" or "." not in d[1]):
+        vv = value_of_named(fl, d[1])
+        if vv is None:
+            return None
+        return eval_expr(fl, panic.norm(vv), leaf, depth + 1)
+    if k == "unop" and d[1] == "Neg":
+        x = eval_expr(fl, d[2], leaf, depth + 1)
+        return None if x is None else -x
+    if k == "binop":
+        x = eval_expr(fl, d[2], leaf, depth + 1)
+        y = eval_expr(fl, d[3], leaf, depth + 1)
+        if x is None or y is None:
+            return None
+        op = d[1].replace("WithOverflow", "").replace("Unchecked", "")
+        try:
+            if op == "Add":
+                return x + y
+            if op == "Sub":
+                return x - y
+            if op == "Mul":
+                return x * y
+            if op == "Div":
+                return x / y if y != 0 else None
+        except (OverflowError, ZeroDivisionError):
+            return None
+        return None
+    if k == "call":
+        nm = d[1].split("::")[-1]
+        args = [eval_expr(fl, a, leaf, depth + 1) for a in d[2]]
+        if None in args:
+            return None
+        if nm in ("add", "sub", "mul", "div") and len(args) == 2:
+            return {"add": args[0] + args[1], "sub": args[0] - args[1], "mul": args[0] * args[1], "div": (args[0] / args[1]) if args[1] else None}[nm]
+        if nm == "powi" and len(args) == 2:
+            return args[0] ** int(args[1])
+        if nm == "powf" and len(args) == 2:
+            return args[0] ** args[1]
+        if nm in ("from", "into") and len(args) == 1:
+            return args[0]
+        return None
+    return None
+
+
+def same_on_grid(fl, d, leaf_for, expected, grid, tol=1e-9):
+    """compare eval_expr(d) with expected(point) at every grid point; returns (True, None) | (False, point, got, want)
+    | (None, why) when the tree cannot be evaluated"""
+    for pt in grid:
+        got = eval_expr(fl, d, leaf_for(pt))
+        if got is None:
+            return (None, "the expression is not plain arithmetic over the expected quantities")
+        want = expected(pt)
+        if abs(got - want) > tol * max(1.0, abs(want)):
+            return (False, pt, got, want)
+    return (True, None)
